@@ -125,6 +125,10 @@ pub fn run(rec: &mut Recorder, w: &mut World, tier: &str, seed: u64) {
     for (what, rules, m_override) in [
         ("malformed-rule-first", vec![sv(&["a", "a"]), sv(&["a", "a", "a"])], None),
         ("malformed-rule-only-long", vec![sv(&["a", "a", "a", "a"])], None),
+        // not the first stored rule: a well-formed rule that matches nothing comes first, so evaluation reaches it
+        ("malformed-short-rule-second", vec![sv(&["zz", "zz", "zz"]), sv(&["a", "a"])], None),
+        ("malformed-long-rule-second", vec![sv(&["zz", "zz", "zz"]), sv(&["a", "a", "a", "a"])], None),
+        ("malformed-long-rule-last-of-three", vec![sv(&["zz", "zz", "zz"]), sv(&["yy", "yy", "yy"]), sv(&["a", "a", "a", "a"])], None),
         ("failing-matcher", vec![sv(&["a", "a", "a"])], Some(and(Ex::Cmp("gt", b(Ex::Attr(b(r(0)), "Age".into())), b(Ex::LitI(1))), eq(r(1), p(1))))),
         ("unknown-function", vec![sv(&["a", "a", "a"])], Some(Ex::Call2("noSuchFn".into(), b(r(0)), b(p(0))))),
         ("non-boolean-matcher", vec![sv(&["a", "a", "a"])], Some(r(0))),
